@@ -161,8 +161,8 @@ var propSpecs = map[string]*PropSpec{
 		Patterns:    []string{"./..."},
 		Level:       "proof",
 		Explanation: "partial: (1) the tokenizer's cursor API (Next, NextText, Peek, PeekText, Advance, CurrentLine, CurrentColumn, Set, Reset, Delete, Insert) is under safe-mode contracts with the representation invariant 'the cursor is never negative' (every function of the module that assigns Tokenizer.TokenP keeps it, table obligation), so every index into the token list is in bounds for every token list, cursor and argument; (2) the ledger of the index / slice / make / division / type-assertion / nil-map-store sites that a contract-free safe-mode sweep proved panic-free for every input in internal/language/tokenizer, compiler and bytecode is re-proved on every run, and in every function of those packages in which the sweep proved every site ('closed'), a site that is new and refuted is a violation",
-		TrustedBase: []string{"sites the sweep could not prove on their own (they need a caller's guarantee, or the solver gave up) are NOT claimed: ledger/C07.open.txt; six functions too large to lower in the memory available (the interpreter's dispatch table and five compiler functions) are not attempted; the property as a whole (no source text crashes the host) is not decided", "nil dereferences are not claimed", "each function is swept on its own with unconstrained parameters (a non-nil receiver only)", "the sweep also covers the builtins and the runtime packages strings, util, strconv, math, sort, fmt, time, json, base64, reflect, errors, filepath"},
-		Sweep:       []string{modInternal + "language/tokenizer", modInternal + "language/compiler", modInternal + "language/bytecode", modInternal + "builtins", modInternal + "runtime/strings", modInternal + "runtime/util", modInternal + "runtime/strconv", modInternal + "runtime/math", modInternal + "runtime/sort", modInternal + "runtime/fmt", modInternal + "runtime/time", modInternal + "runtime/json", modInternal + "runtime/base64", modInternal + "runtime/reflect", modInternal + "runtime/errors", modInternal + "runtime/filepath"},
+		TrustedBase: []string{"sites the sweep could not prove on their own (they need a caller's guarantee, or the solver gave up) are NOT claimed: ledger/C07.open.txt; six functions too large to lower in the memory available (the interpreter's dispatch table and five compiler functions) are not attempted; the property as a whole (no source text crashes the host) is not decided", "nil dereferences are not claimed", "each function is swept on its own with unconstrained parameters (a non-nil receiver only)", "the sweep also covers the builtins, the runtime packages strings, util, strconv, math, sort, fmt, time, json, base64, reflect, errors, filepath, and the data and symbols packages"},
+		Sweep:       []string{modInternal + "language/tokenizer", modInternal + "language/compiler", modInternal + "language/bytecode", modInternal + "builtins", modInternal + "runtime/strings", modInternal + "runtime/util", modInternal + "runtime/strconv", modInternal + "runtime/math", modInternal + "runtime/sort", modInternal + "runtime/fmt", modInternal + "runtime/time", modInternal + "runtime/json", modInternal + "runtime/base64", modInternal + "runtime/reflect", modInternal + "runtime/errors", modInternal + "runtime/filepath", modInternal + "language/data", modInternal + "language/symbols"},
 		Extra:       c07Extra,
 	},
 	"C14": {
